@@ -72,6 +72,9 @@ pub fn replay(args: &[String]) {
     let cases = read_lines(&args[0]);
     let out = arg(args, "--out").unwrap();
     let mut sink = Sink::create(&out);
+    let mut rng0 = rng(101);
+    let probes: Vec<PartialDSym> = { let mut v = generated_2d(4); v.extend(sets_with_branching(3, 2, &[1, 2, 3], 3, &mut rng0)); v.into_iter().filter(|s| s.size() >= 2).collect() };
+    let mut nrej = 0usize;
     for c in &cases {
         for style in 0..2 {
             let text = render(&c["text"], style);
@@ -79,7 +82,10 @@ pub fn replay(args: &[String]) {
             e["exp_ok"] = c["ok"].clone();
             e["exp_sym"] = if c["ok"] == true { c["sym"].clone() } else { json!({}) };
             e["mutated"] = c["mutated"].clone();
+            let rejected = e["ok"] == false;
             sink.emit(e);
+            // see drive(): the round trip of a valid symbol right after a rejected text (every fourth rejection)
+            if rejected { nrej += 1; if nrej % 4 == 0 { sink.emit(roundtrip(&probes[(nrej / 4) % probes.len()], "after a rejected text")); } }
         }
     }
     sink.flush();
@@ -154,7 +160,15 @@ pub fn drive(args: &[String]) {
         } else {
             mutate(texts.choose(&mut rng).unwrap(), &mut rng)
         };
-        sink.emit(parse_guarded(&t));
+        let e = parse_guarded(&t);
+        let rejected = e["ok"] == false;
+        sink.emit(e);
+        // a parser may keep scratch state between calls; a REJECTED text is where clean-up code is skipped.  Half of the
+        // rejections are followed at once by the round trip of a valid symbol, which must not notice its predecessor
+        if rejected && rng.gen_bool(0.5) {
+            let s = &corpus[rng.gen_range(0..corpus.len())];
+            sink.emit(roundtrip(s, "after a rejected text"));
+        }
     }
     // huge extents with too little data (must be rejected before anything is allocated)
     for t in ["<1.1:4611686018427387904:1,1,1:1,1>", "<1.1:1 18446744073709551615:1:1>", "<1.1:1000000000000 2:1,1,1:3,3>",
